@@ -4,31 +4,39 @@ set -e
 cd "$(dirname "$0")"
 export GOFLAGS=-mod=mod GOPROXY=off GOSUMDB=off GOTOOLCHAIN=local CGO_ENABLED=0
 mkdir -p bin evidence replays
+# The repository under test is /repo; VERIF_REPO may point a background run at a snapshot of it instead.
+REPO="${VERIF_REPO:-/repo}"
+export VERIF_DIR="$PWD"
 # keep the harness' go.sum a superset of the repository's
-if [ -f /repo/go.sum ]; then cat /repo/go.sum mc/go.sum 2>/dev/null | sort -u > bin/go.sum.tmp && mv bin/go.sum.tmp mc/go.sum; fi
+if [ -f "$REPO/go.sum" ]; then cat "$REPO/go.sum" mc/go.sum 2>/dev/null | sort -u > bin/go.sum.tmp && mv bin/go.sum.tmp mc/go.sum; fi
+MODFLAG=""
+if [ "$REPO" != "/repo" ]; then
+  sed "s#=> /repo#=> $REPO#" mc/go.mod > bin/alt.go.mod; cp mc/go.sum bin/alt.go.sum
+  MODFLAG="-modfile=$PWD/bin/alt.go.mod"
+fi
 
-build_plain() { (cd mc && go build -tags verif -o ../bin/check ./cmd/check); }
+build_plain() { (cd mc && go build $MODFLAG -tags verif -o ../bin/check ./cmd/check); }
 
 # C12's concurrent part: valuemap.go with "sync"/"sync/atomic" redirected to the scheduler shim (overlay, /repo untouched)
 build_sched() {
   mkdir -p bin/overlay
   sed -e 's#^\t"sync"$#\tsync "github.com/sealdice/dicescript/verifshim/vsync"#' \
-      -e 's#^\t"sync/atomic"$#\tatomic "github.com/sealdice/dicescript/verifshim/vatomic"#' /repo/valuemap.go > bin/overlay/valuemap.go
+      -e 's#^\t"sync/atomic"$#\tatomic "github.com/sealdice/dicescript/verifshim/vatomic"#' "$REPO/valuemap.go" > bin/overlay/valuemap.go
   if ! grep -q 'verifshim/vsync' bin/overlay/valuemap.go || ! grep -q 'verifshim/vatomic' bin/overlay/valuemap.go; then
-    echo "MACHINERY ERROR: could not redirect sync imports of /repo/valuemap.go" >&2; return 2
+    echo "MACHINERY ERROR: could not redirect sync imports of $REPO/valuemap.go" >&2; return 2
   fi
   cat > bin/overlay/overlay.json <<JSON
 {"Replace": {
- "/repo/valuemap.go": "$PWD/bin/overlay/valuemap.go",
- "/repo/verifshim/vsync/vsync.go": "$PWD/mc/shim/vsync/vsync.go",
- "/repo/verifshim/vatomic/vatomic.go": "$PWD/mc/shim/vatomic/vatomic.go"
+ "$REPO/valuemap.go": "$PWD/bin/overlay/valuemap.go",
+ "$REPO/verifshim/vsync/vsync.go": "$PWD/mc/shim/vsync/vsync.go",
+ "$REPO/verifshim/vatomic/vatomic.go": "$PWD/mc/shim/vatomic/vatomic.go"
 }}
 JSON
-  (cd mc && go build -tags "verif vshim" -overlay ../bin/overlay/overlay.json -o ../bin/check-sched ./cmd/check)
+  (cd mc && go build $MODFLAG -tags "verif vshim" -overlay ../bin/overlay/overlay.json -o ../bin/check-sched ./cmd/check)
 }
 
 # C11's free-running pass: the same harness built with the race detector
-build_race() { (cd mc && CGO_ENABLED=1 go build -race -tags verif -o ../bin/check-race ./cmd/check); }
+build_race() { (cd mc && CGO_ENABLED=1 go build $MODFLAG -race -tags verif -o ../bin/check-race ./cmd/check); }
 
 if [ "$1" = "--setup" ]; then
   build_plain
